@@ -23,6 +23,7 @@ import (
 	"bytes"
 	"errors"
 	"fmt"
+	"io"
 	"net"
 	"net/http"
 	"os"
@@ -53,6 +54,50 @@ func (l *lockedBuf) finish() []section {
 	l.mu.Lock()
 	defer l.mu.Unlock()
 	return []section{{name: "buffer", nw: l.writes, raw: append([]byte(nil), l.b.Bytes()...)}}
+}
+
+// ---- failing / slow writer (V=f, F=<k>:<mode>)
+//
+// once: the k-th Write (0-based) returns (0, error) and stores nothing;
+// ever: every Write from the k-th on does; short: the k-th Write stores half
+// of the frame and returns (n/2, io.ErrShortWrite) — the captured stream is
+// torn from there on (the format has no resynchronisation); slow: every Write
+// sleeps 200 microseconds.  (A short write with a nil error is not a legal
+// io.Writer; the stream ignores the byte count either way.)
+type failSink struct {
+	lockedBuf
+	k     int
+	mode  string
+	phase int
+	calls int
+}
+
+var errSink = errors.New("injected sink error")
+
+func (f *failSink) Write(p []byte) (int, error) {
+	f.mu.Lock()
+	i := f.calls
+	f.calls++
+	f.mu.Unlock()
+	switch {
+	case f.mode == "once" && i == f.k, f.mode == "ever" && i >= f.k:
+		return 0, errSink
+	case f.mode == "short" && i == f.k:
+		f.lockedBuf.Write(p[:len(p)/2])
+		return len(p) / 2, io.ErrShortWrite
+	case f.mode == "slow":
+		time.Sleep(200 * time.Microsecond)
+	}
+	return f.lockedBuf.Write(p)
+}
+
+func (f *failSink) finish() []section {
+	secs := f.lockedBuf.finish()
+	secs[0].name = "failing-writer"
+	if f.mode != "slow" {
+		secs[0].note = fmt.Sprintf("failsink:%s:%d", f.mode, f.phase)
+	}
+	return secs
 }
 
 // ---- retaining writer
